@@ -1,11 +1,12 @@
-(* C10 — property theorems only. Each is closed by `exact` of a lemma proved in Proofs.v and is
-   followed by Print Assumptions. *)
-From C10 Require Import Model Spec Proofs.
+(* C10 — property theorems only. Each is closed by `exact` of a lemma proved in Proofs.v /
+   ProofsConc.v / Orig.v and is followed by Print Assumptions. *)
+From C10 Require Import Model Spec Proofs Orig ModelConc ProofsConc.
 From Coq Require Import Sorting.Sorted.
 
 (* (1) The outcome of a call depends only on the methods defined at that moment: for EVERY
-   well-formed history, the outputs of the implementation model (cache, fast path, in-place update)
-   equal those of the cache-free semantics on the abstract method table. No guard. *)
+   well-formed history, the outputs of the implementation model (cache of copied effective
+   methods, fast path, in-place update) equal those of the cache-free semantics on the abstract
+   method table. No guard. *)
 Theorem C10_cache_transparent : forall ct n ops, 1 <= n -> forall a, wf_ops ct n ops -> Inv ct n a ->
   snd (run ct a ops) = pure_run ct (methods a) ops /\ Inv ct n (fst (run ct a ops)) /\
   methods (fst (run ct a ops)) = fold_left spec_step ops (methods a).
@@ -24,44 +25,210 @@ Theorem C10_dispatch_order_unique : forall hs tbl ks1 ks2,
 Proof. exact dispatch_order_unique. Qed.
 Print Assumptions C10_dispatch_order_unique.
 
-(* (3) Full statement of the property for the model: every history, every call = S.
-   FULL (false of the faithful model, see the two _refuted theorems):
+(* (3) The effective method, for EVERY list of applicable combinations that contains a primary
+   and every argument vector: Method.Call of the repaired code - any number of :around methods,
+   each calling call-next-method zero, one or several times with the same or with changed
+   arguments and asking next-method-p, primaries that call the next primary - is the effective
+   method of the standard method combination. *)
+Theorem C10_method_call_effective : forall cs v, prims cs <> [] -> method_call cs v = effective cs v.
+Proof. exact method_call_effective. Qed.
+Print Assumptions C10_method_call_effective.
+
+(* (4) Full statement of the property for the model: every history, every call = S.
+   FULL (false of the model in one respect, see C10_around_without_primary_refuted):
      forall ct n ops, 1 <= n -> wf_ops ct n ops -> snd (run ct (new_aux n) ops) = spec_run ct [] ops.
-   PROVED: the same under guard_ops = "at every call at most one applicable :around and at least
-   one applicable primary". *)
+   PROVED: the same under guard_ops = "at every call, if an :around method is applicable then a
+   primary method is applicable". (Before the repairs C10-1..C10-5 the guard was: at most one
+   applicable :around, an applicable primary, and no call-next-method in primaries.) *)
 Theorem C10_run_eq_spec_partial : forall ct n ops,
   1 <= n -> wf_ops ct n ops -> guard_ops ct [] ops ->
   snd (run ct (new_aux n) ops) = spec_run ct [] ops.
 Proof. exact run_eq_spec. Qed.
 Print Assumptions C10_run_eq_spec_partial.
 
-(* (4) S itself runs the standard method combination *)
-Theorem C10_effective_order : forall cs p ps,
-  prims cs = p :: ps -> forallb b_next (wraps cs) = true ->
-  effective cs =
-    (map (fun b => Ev (b_id b)) (wraps cs) ++
-     (map (fun b => Ev (b_id b)) (flat_map (fun c => opt_list (c_before c)) cs) ++ [Ev (b_id p)] ++
-      map (fun b => Ev (b_id b)) (rev (flat_map (fun c => opt_list (c_after c)) cs))) ++
+(* (5) S itself runs the standard method combination: *)
+(* (a) every :around calls call-next-method once and the most specific primary does not: all
+   :around methods most specific first, all :before methods most specific first, the most
+   specific primary, all :after methods least specific first, the :around methods end in reverse *)
+Theorem C10_effective_order : forall cs p ps v,
+  prims cs = p :: ps -> plain p -> Forall once (wraps cs) ->
+  effective cs v =
+    (evs (wraps cs) v ++
+     (evs (befores cs) v ++ [Ev (b_id p) v] ++ evs (rev (afters cs)) v) ++
      map (fun b => EvEnd (b_id b)) (rev (wraps cs)), RVal (b_id p)).
 Proof. exact effective_order. Qed.
 Print Assumptions C10_effective_order.
 
-(* (5) outside the guard the faithful model violates S: known findings *)
-Theorem C10_second_around_skipped_refuted :
-  wf_ops ct_num 1 ops_two_arounds /\
-  snd (run ct_num (new_aux 1) ops_two_arounds) <> spec_run ct_num [] ops_two_arounds.
-Proof. exact second_around_skipped_refuted. Qed.
-Print Assumptions C10_second_around_skipped_refuted.
+(* (b) an :around method without call-next-method: no other method runs, its value is returned *)
+Theorem C10_effective_around_declines : forall cs a rest v,
+  prims cs <> [] -> wraps cs = a :: rest -> b_calls a = [] ->
+  effective cs v = (Ev (b_id a) v :: (if b_nmp a then [EvNmp true] else []) ++ [EvEnd (b_id a)], RVal (b_id a)).
+Proof. exact effective_around_declines. Qed.
+Print Assumptions C10_effective_around_declines.
 
-Theorem C10_no_primary_refuted :
-  wf_ops ct_num 1 ops_no_primary /\
-  snd (run ct_num (new_aux 1) ops_no_primary) <> spec_run ct_num [] ops_no_primary.
-Proof. exact no_primary_refuted. Qed.
-Print Assumptions C10_no_primary_refuted.
+(* (c) an :around method with two call-next-method forms, the second with changed arguments: the
+   rest of the effective method runs twice, the second time on the changed arguments, and the
+   value of the second run is returned *)
+Theorem C10_effective_around_twice : forall cs a rest f v tr1 r1 tr2 r2,
+  prims cs <> [] -> wraps cs = a :: rest -> b_nmp a = false -> b_calls a = [[]; f] ->
+  let inner := spec_inner (befores cs) (prims cs) (afters cs) in
+  spec_arounds rest inner v = (tr1, r1) -> is_err r1 = false ->
+  spec_arounds rest inner (xor_args v f) = (tr2, r2) -> is_err r2 = false ->
+  effective cs v = (Ev (b_id a) v :: tr1 ++ tr2 ++ [EvEnd (b_id a)], r2).
+Proof. exact effective_around_twice. Qed.
+Print Assumptions C10_effective_around_twice.
 
-(* (6) the hypotheses of (3) are satisfiable by a non-trivial history *)
+(* (d) call-next-method in a primary runs the next most specific primary; in the least specific
+   one next-method-p is false and call-next-method signals no-next-method (no :after method runs) *)
+Theorem C10_effective_primary_chain : forall cs p1 p2 ps v,
+  wraps cs = [] -> prims cs = p1 :: p2 :: ps -> once p1 -> plain p2 ->
+  effective cs v =
+    (evs (befores cs) v ++ [Ev (b_id p1) v; Ev (b_id p2) v; EvEnd (b_id p1)] ++ evs (rev (afters cs)) v, RVal (b_id p2)).
+Proof. exact effective_primary_chain. Qed.
+Print Assumptions C10_effective_primary_chain.
+
+Theorem C10_effective_primary_no_next : forall cs p f v,
+  wraps cs = [] -> prims cs = [p] -> b_calls p = [f] ->
+  effective cs v = (evs (befores cs) v ++ Ev (b_id p) v :: (if b_nmp p then [EvNmp false] else []), RNoNext).
+Proof. exact effective_primary_no_next. Qed.
+Print Assumptions C10_effective_primary_no_next.
+
+(* (6) the clause of the guard that is left is a known finding: an applicable :around method
+   without any applicable primary runs (slip's own tests require it) where the language signals
+   an error before running anything *)
+Theorem C10_around_without_primary_refuted :
+  wf_ops ct_num 1 ops_around_only /\
+  snd (run ct_num (new_aux 1) ops_around_only) = [None; Some ([Ev 1%N [false]], RNoNext)] /\
+  spec_run ct_num [] ops_around_only = [None; Some ([], RNoApplicable)].
+Proof. exact around_without_primary_refuted. Qed.
+Print Assumptions C10_around_without_primary_refuted.
+
+(* (7) the former guard clauses, refuted for the model of the UNREPAIRED code (Orig.v) and met
+   by the repaired model: three :around methods all run; daemons without a primary signal
+   no-applicable-method; call-next-method in a primary runs the next primary *)
+Theorem C10_original_second_around_skipped_refuted :
+  snd (Orig.run Orig.ct_num (Orig.new_aux 1) Orig.ops_two_arounds) =
+    [None; None; None; Some ([Orig.Ev 2; Orig.Ev 1; Orig.EvEnd 2], Orig.RVal 1)]%N /\
+  Orig.spec_run Orig.ct_num [] Orig.ops_two_arounds =
+    [None; None; None; Some ([Orig.Ev 2; Orig.Ev 3; Orig.Ev 1; Orig.EvEnd 3; Orig.EvEnd 2], Orig.RVal 1)]%N.
+Proof. exact Orig.second_around_skipped_refuted. Qed.
+Print Assumptions C10_original_second_around_skipped_refuted.
+
+Theorem C10_original_no_primary_refuted :
+  snd (Orig.run Orig.ct_num (Orig.new_aux 1) Orig.ops_no_primary) = [None; Some ([Orig.Ev 1], Orig.RNil)]%N /\
+  Orig.spec_run Orig.ct_num [] Orig.ops_no_primary = [None; Some ([], Orig.RNoPrimary)].
+Proof. exact Orig.no_primary_refuted. Qed.
+Print Assumptions C10_original_no_primary_refuted.
+
+Theorem C10_repaired_cases :
+  snd (run ct_num (new_aux 1) ops_two_arounds) = spec_run ct_num [] ops_two_arounds /\
+  nth 4 (snd (run ct_num (new_aux 1) ops_two_arounds)) None =
+    Some ([Ev 2 [false]; Ev 3 [false]; Ev 4 [false]; Ev 1 [false]; EvEnd 4; EvEnd 3; EvEnd 2], RVal 1)%N /\
+  snd (run ct_num (new_aux 1) ops_no_primary) = [None; Some ([], RNoApplicable)] /\
+  snd (run ct_num (new_aux 1) ops_no_primary) = spec_run ct_num [] ops_no_primary /\
+  snd (run ct_num (new_aux 1) ops_next_in_primary) = [None; None; Some ([Ev 2 [false]; Ev 1 [false]; EvEnd 2], RVal 1)]%N /\
+  snd (run ct_num (new_aux 1) ops_next_in_primary) = spec_run ct_num [] ops_next_in_primary.
+Proof. exact repaired_cases. Qed.
+Print Assumptions C10_repaired_cases.
+
+(* (8) the hypotheses of (4) are satisfiable by a non-trivial history (two :around methods, one
+   calling call-next-method twice with changed arguments, next-method-p, a primary calling the
+   next primary, replacement, removal, cached calls) *)
 Theorem C10_guard_nonvacuous :
   wf_ops ct_num 2 ops_example /\ guard_ops ct_num [] ops_example /\
-  List.length (filter (fun o => match o with OpCall _ => true | _ => false end) ops_example) = 5.
+  List.length (filter (fun o => match o with OpCall _ _ => true | _ => false end) ops_example) = 5.
 Proof. split; [exact (proj1 example_in_guard)|split; [exact (proj1 (proj2 example_in_guard))|reflexivity]]. Qed.
 Print Assumptions C10_guard_nonvacuous.
+
+(* (9) The concurrent clause. The protocol of the Aux mutex as a machine of atomic steps
+   (ModelConc.v: every defmethod, remove-method, call, find-method and compute-applicable-methods
+   is the sequence of steps of the repaired Go code; a schedule picks the routine that moves).
+   For EVERY class table, arity, set of routine programs and schedule (any length, any number of
+   routines), in the state reached:
+   - the log (the operations in the order they took the mutex - each takes it between its
+     invocation and its response, so the order respects real time) contains the operations each
+     routine has begun, in its program order;
+   - the answers of the operations a routine has completed are a prefix of (and, once it has
+     finished, equal to) the answers its operations get when the logged operations run one after
+     the other, alone, in the order of the log (crun = the sequential semantics of Model.v). *)
+Theorem C10_concurrent_linearizable : forall ct n progs sched,
+  let g := grun ct fixed sched (ginit n progs) in
+  let answers := snd (crun ct (new_aux n) (map snd (g_log g))) in
+  forall r rt, nth_error (g_rs g) r = Some rt ->
+    is_prefix (ops_of r (g_log g)) (nth r progs []) /\
+    is_prefix (r_outs rt) (answers_of r (g_log g) answers) /\
+    (r_cur rt = None -> r_todo rt = [] ->
+       ops_of r (g_log g) = nth r progs [] /\ r_outs rt = answers_of r (g_log g) answers).
+Proof. exact concurrent_linearizable. Qed.
+Print Assumptions C10_concurrent_linearizable.
+
+(* the sequential reference of (9) is itself cache-transparent: in the sequential run of ANY list
+   of operations (calls, defmethod, remove-method proper, the two readers) every call answers the
+   cache-free semantics on the method table of that moment - which, inside the guard, is the
+   specification (C10_call_pure_eq_spec). With (9): every concurrent call is answered as S demands
+   on the method table at its place in the lock order. *)
+Theorem C10_sequential_reference_cache_transparent : forall ct n, 1 <= n -> forall ops a,
+  Forall (wf_cop ct n) ops -> Inv ct n a -> snd (crun ct a ops) = cpure ct a ops.
+Proof. exact crun_cache_transparent. Qed.
+Print Assumptions C10_sequential_reference_cache_transparent.
+
+Theorem C10_call_pure_eq_spec : forall ct n tbl cs v,
+  wf_tbl n tbl -> Forall (wf_cls ct) cs -> guard ct tbl cs -> pure_call ct tbl cs v = spec_call ct tbl cs v.
+Proof. exact pure_call_eq_spec. Qed.
+Print Assumptions C10_call_pure_eq_spec.
+
+(* the sequential reference of (9) removes with remove-method proper; Model.remove_method (find-method,
+   then remove-method when found) is the same function wherever find-method answers true *)
+Theorem C10_remove_raw_is_remove : forall a q k,
+  (find_method (methods a) q k = true -> remove_raw a q k = remove_method a q k) /\
+  (find_method (methods a) q k = false -> remove_method a q k = a).
+Proof. intros a q k. split; [apply remove_raw_found|apply remove_not_found]. Qed.
+Print Assumptions C10_remove_raw_is_remove.
+
+(* (10) The UNREPAIRED protocol is not linearizable; each witness is a schedule on which the
+   original machine gives an answer that NO interleaving of the programs explains, while the
+   repaired machine answers like an interleaving on the same schedule. Found by this model,
+   reproduced on the implementation, repaired by repo_fixes/C10-6, C10-7, C10-8. *)
+(* the cached effective method shared its combinations with the method table and was run after the unlock *)
+Theorem C10_original_shared_combination_refuted :
+  map r_outs (g_rs (grun ct2 original sched_shared (ginit 1 progs_shared))) =
+    [[CoCall ([Ev 2 [false]], RVal 2)]; [CoNone; CoNone; CoNone]]%N /\
+  (forall seq, In seq (merges2 progs_shared) ->
+     answers_of 0 seq (snd (crun ct2 (new_aux 1) (map snd seq))) <> [CoCall ([Ev 2 [false]], RVal 2)]%N) /\
+  map r_outs (g_rs (grun ct2 fixed sched_shared (ginit 1 progs_shared))) =
+    [[CoCall ([Ev 1 [false]], RVal 1)]; [CoNone; CoNone; CoNone]]%N.
+Proof. exact original_shared_combination_refuted. Qed.
+Print Assumptions C10_original_shared_combination_refuted.
+
+(* the location of a wrapper was kept in the Closure field of the method lambda all calls share *)
+Theorem C10_original_closure_race_refuted :
+  nth 0 (map r_outs (g_rs (grun ct2 original sched_closure (ginit 1 progs_closure)))) [] =
+    [CoNone; CoNone; CoNone; CoCall ([Ev 3 [false]; Ev 2 [false]; EvEnd 3], RVal 2)]%N /\
+  (forall seq, In seq (merges2 progs_closure) ->
+     answers_of 0 seq (snd (crun ct2 (new_aux 1) (map snd seq))) <>
+       [CoNone; CoNone; CoNone; CoCall ([Ev 3 [false]; Ev 2 [false]; EvEnd 3], RVal 2)]%N) /\
+  map r_outs (g_rs (grun ct2 fixed sched_closure (ginit 1 progs_closure))) =
+    [[CoNone; CoNone; CoNone; CoCall ([Ev 3 [false]; Ev 1 [false]; EvEnd 3], RVal 1)];
+     [CoCall ([Ev 3 [false]; Ev 2 [false]; EvEnd 3], RVal 2)]]%N.
+Proof. exact original_closure_race_refuted. Qed.
+Print Assumptions C10_original_closure_race_refuted.
+
+(* find-method / compute-applicable-methods read the method table without the mutex: the Go
+   runtime stops the process when the read meets a map write *)
+Theorem C10_original_unlocked_reader_refuted :
+  map r_outs (g_rs (grun ct2 original sched_reader (ginit 1 progs_reader))) = [[CoNone]; [CoFault]] /\
+  (forall seq, In seq (merges2 progs_reader) ->
+     answers_of 1 seq (snd (crun ct2 (new_aux 1) (map snd seq))) <> [CoFault]) /\
+  map r_outs (g_rs (grun ct2 fixed sched_reader (ginit 1 progs_reader))) = [[CoNone]; [CoFind true]].
+Proof. exact original_unlocked_reader_refuted. Qed.
+Print Assumptions C10_original_unlocked_reader_refuted.
+
+(* (11) non-vacuity of (9): three routines (calls, defmethod, remove-method, find-method,
+   compute-applicable-methods) interleaved step by step; all eleven operations complete *)
+Theorem C10_concurrent_example :
+  let g := grun ct2 fixed sched_example (ginit 1 progs_example) in
+  Forall (fun rt => r_cur rt = None /\ r_todo rt = []) (g_rs g) /\
+  List.length (g_log g) = 11 /\
+  map fst (g_log g) = [0; 1; 2; 0; 1; 2; 0; 1; 2; 0; 2].
+Proof. split; [exact (proj1 example_schedule)|split; [exact (proj1 (proj2 example_schedule))|exact (proj1 (proj2 (proj2 example_schedule)))]]. Qed.
+Print Assumptions C10_concurrent_example.
